@@ -206,6 +206,275 @@ Proof. intros c evs s. destruct (run_frozen c 0 evs s) as (M & _). exact M. Qed.
 Theorem reload_persist_id : forall s, tasks (restart s) = tasks s /\ running (restart s) = [] /\ log (restart s) = log s.
 Proof. intros s. repeat split. Qed.
 
+(* ------------------------------------------------------------------ same outcome, every graph *)
+(* two runner states are equivalent when they have the same tasks and the same SET of running handlers; the log (the
+   observer's record of starts) is deliberately not compared: after a restart handlers are started again *)
+Definition eqv (s s' : st) : Prop := tasks s = tasks s' /\ forall id, mem id (running s) = mem id (running s').
+
+(* [consider] as a function of the task list and of whether the task is running *)
+Definition ts1_of (c : cfg) (id : N) (ts : list task) (t0 : task) : list task :=
+  if norm (t_status t0) =? 5 then set_status id (if mem id (no_undo c) then 1 else 6) ts else ts.
+Definition ctasks (c : cfg) (id : N) (ts : list task) (isr : bool) : list task :=
+  match fnd ts id with
+  | None => ts
+  | Some t0 =>
+      if (norm (t_status t0) =? 5) && isr then ts else
+      let ts1 := ts1_of c id ts t0 in
+      if isr then ts1 else
+      let st1 := status_of ts1 id in
+      if ready st1 then ts1 else
+      match fnd ts1 id with
+      | None => ts
+      | Some t1 =>
+          if must_wait ts1 t1 then ts1
+          else if (st1 =? 6) && mem id (no_undo c) then set_status id 4 ts1
+          else if (st1 =? 2) || (st1 =? 3) then set_status id 3 ts1
+          else if (st1 =? 6) || (st1 =? 7) then set_status id 7 ts1
+          else ts1
+      end
+  end.
+Definition cstart (c : cfg) (id : N) (ts : list task) (isr : bool) : bool :=
+  match fnd ts id with
+  | None => false
+  | Some t0 =>
+      if (norm (t_status t0) =? 5) && isr then false else
+      let ts1 := ts1_of c id ts t0 in
+      if isr then false else
+      let st1 := status_of ts1 id in
+      if ready st1 then false else
+      match fnd ts1 id with
+      | None => false
+      | Some t1 =>
+          if must_wait ts1 t1 then false
+          else if (st1 =? 6) && mem id (no_undo c) then false
+          else if (st1 =? 2) || (st1 =? 3) then true
+          else if (st1 =? 6) || (st1 =? 7) then true
+          else false
+      end
+  end.
+
+Lemma consider_decomp : forall c id s,
+  tasks (consider c id s) = ctasks c id (tasks s) (mem id (running s)) /\
+  running (consider c id s) = if cstart c id (tasks s) (mem id (running s)) then running s ++ [id] else running s.
+Proof.
+  intros c id s. unfold consider, ctasks, cstart, ts1_of, fnd.
+  destruct (find (fun t => t_id t =? id) (tasks s)) as [t0|]; [|split; reflexivity].
+  destruct ((norm (t_status t0) =? 5) && mem id (running s)); [split; reflexivity|].
+  destruct (mem id (running s)); [split; reflexivity|].
+  match goal with |- context [ready ?x] => destruct (ready x) end; [split; reflexivity|].
+  match goal with |- context [find ?f ?l] => destruct (find f l) as [t1|] end; [|split; reflexivity].
+  match goal with |- context [must_wait ?a ?b] => destruct (must_wait a b) end; [split; reflexivity|].
+  match goal with |- context [(?x =? 6) && ?y] => destruct ((x =? 6) && y) end; [split; reflexivity|].
+  match goal with |- context [(?x =? 2) || (?x =? 3)] => destruct ((x =? 2) || (x =? 3)) end; [split; reflexivity|].
+  match goal with |- context [(?x =? 6) || (?x =? 7)] => destruct ((x =? 6) || (x =? 7)) end; split; reflexivity.
+Qed.
+
+Lemma mem_app1 : forall x l y, mem x (l ++ [y]) = mem x l || (x =? y).
+Proof. intros. unfold mem. rewrite existsb_app. simpl. rewrite orb_false_r. reflexivity. Qed.
+
+Lemma consider_eqv : forall c id s s', eqv s s' -> eqv (consider c id s) (consider c id s').
+Proof.
+  intros c id s s' [E1 E2]. destruct (consider_decomp c id s) as [A1 A2]. destruct (consider_decomp c id s') as [B1 B2].
+  split.
+  - rewrite A1, B1, E1, E2. reflexivity.
+  - intros x. rewrite A2, B2, E1, E2. destruct (cstart c id (tasks s') (mem id (running s'))); [rewrite !mem_app1, E2; reflexivity | apply E2].
+Qed.
+
+Lemma fold_consider_eqv : forall c (l : list task) s s', eqv s s' ->
+  eqv (fold_left (fun acc t => consider c (t_id t) acc) l s) (fold_left (fun acc t => consider c (t_id t) acc) l s').
+Proof. intros c l. induction l as [|t l IH]; intros s s' E; simpl; [assumption | apply IH, consider_eqv, E]. Qed.
+
+Lemma ensure_eqv : forall c s s', eqv s s' -> eqv (ensure c s) (ensure c s').
+Proof. intros c s s' E. unfold ensure. destruct E as [E1 E2]. rewrite E1. apply fold_consider_eqv. split; assumption. Qed.
+
+Lemma mem_filter_ne : forall x id l, mem x (filter (fun y => negb (y =? id)) l) = mem x l && negb (x =? id).
+Proof.
+  intros x id l. unfold mem. induction l as [|y l IH]; simpl; [reflexivity|].
+  destruct (y =? id) eqn:E; simpl.
+  - rewrite IH. apply N.eqb_eq in E. subst y. destruct (x =? id) eqn:E2; simpl; [rewrite andb_false_r; reflexivity | reflexivity].
+  - rewrite IH. destruct (x =? y) eqn:E2; simpl; [|reflexivity]. apply N.eqb_eq in E2. subst y. rewrite E. reflexivity.
+Qed.
+
+Lemma finish_eqv : forall c id s s', eqv s s' -> eqv (finish c id s) (finish c id s').
+Proof.
+  intros c id s s' [E1 E2]. unfold finish. rewrite E2, E1. destruct (negb (mem id (running s'))); [split; assumption|].
+  assert (F : forall x, mem x (filter (fun y => negb (y =? id)) (running s)) = mem x (filter (fun y => negb (y =? id)) (running s')))
+    by (intros x; rewrite !mem_filter_ne, E2; reflexivity).
+  destruct ((status_of (tasks s') id =? 3) || (status_of (tasks s') id =? 5)).
+  - destruct (mem id (fail_do c)); split; simpl; try reflexivity; assumption.
+  - destruct (status_of (tasks s') id =? 7); split; simpl; try reflexivity; assumption.
+Qed.
+
+Lemma step_eqv : forall c e s s', eqv s s' -> eqv (step c s e) (step c s' e).
+Proof.
+  intros c [|id|] s s' E; simpl; [apply ensure_eqv | apply finish_eqv | ]; try assumption.
+  destruct E as [E1 E2]. unfold restart, reload, persist. split; simpl; [assumption | reflexivity].
+Qed.
+
+Lemma run_eqv : forall c evs s s', eqv s s' -> eqv (run_events c s evs) (run_events c s' evs).
+Proof. intros c evs. induction evs as [|e evs IH]; intros s s' E; simpl; [assumption | apply IH, step_eqv, E]. Qed.
+
+(* ---- the first Ensure pass after a restart reaches the state the same pass reaches without the restart *)
+Lemma set_status_absent : forall id v ts, ~ In id (map t_id ts) -> set_status id v ts = ts.
+Proof.
+  intros id v ts. induction ts as [|b ts IH]; intros H; simpl; [reflexivity|].
+  destruct (t_id b =? id) eqn:E.
+  - exfalso. apply H. apply N.eqb_eq in E. simpl. left. assumption.
+  - f_equal. apply IH. intro X. apply H. simpl. right. assumption.
+Qed.
+
+Lemma set_status_same : forall id v ts, NoDup (map t_id ts) -> (forall t, fnd ts id = Some t -> t_status t = v) -> set_status id v ts = ts.
+Proof.
+  intros id v ts. induction ts as [|a ts IH]; intros Hn H; simpl; [reflexivity|].
+  inversion Hn as [|? ? Ha Hn']; subst. unfold fnd in *. simpl in H. destruct (t_id a =? id) eqn:E.
+  - specialize (H a eq_refl). f_equal.
+    + destruct a; simpl in *; subst; reflexivity.
+    + apply N.eqb_eq in E. subst id. apply set_status_absent. assumption.
+  - f_equal. apply IH; assumption.
+Qed.
+
+Lemma norm_eq_37 : forall x, norm x = 3 \/ norm x = 7 -> norm x = x.
+Proof. intros x H. unfold norm in *. destruct (x =? 0); [destruct H; discriminate | reflexivity]. Qed.
+
+(* a task in Doing / Undoing: left alone when its handler runs, started again (same status) when it does not *)
+Lemma ctasks_running_37 : forall c id ts, (status_of ts id = 3 \/ status_of ts id = 7) ->
+  ctasks c id ts true = ts /\ cstart c id ts true = false.
+Proof.
+  intros c id ts H. unfold ctasks, cstart, ts1_of. unfold status_of in H. fold (fnd ts id) in H.
+  destruct (fnd ts id) as [t0|]; [|split; reflexivity].
+  assert (N5 : (norm (t_status t0) =? 5) = false) by (destruct H as [H|H]; rewrite H; reflexivity).
+  rewrite N5. simpl. split; reflexivity.
+Qed.
+
+Lemma ctasks_idle_37 : forall c id ts, NoDup (map t_id ts) -> (status_of ts id = 3 \/ status_of ts id = 7) ->
+  ctasks c id ts false = ts /\ cstart c id ts false = true.
+Proof.
+  intros c id ts Hn H. unfold ctasks, cstart, ts1_of. pose proof H as H'. unfold status_of in H'. fold (fnd ts id) in H'.
+  destruct (fnd ts id) as [t0|] eqn:F; [|destruct H'; discriminate].
+  assert (N5 : (norm (t_status t0) =? 5) = false) by (destruct H' as [X|X]; rewrite X; reflexivity).
+  rewrite N5. simpl. rewrite F.
+  assert (MW : must_wait ts t0 = false) by (unfold must_wait; destruct H' as [X|X]; rewrite X; reflexivity).
+  assert (S : status_of ts id = norm (t_status t0)) by (unfold status_of; fold (fnd ts id); rewrite F; reflexivity).
+  rewrite MW. destruct H as [H|H]; rewrite H; simpl.
+  - split; [|reflexivity]. apply set_status_same; [assumption|]. intros t Ft. rewrite F in Ft. inversion Ft; subst.
+    rewrite <- (norm_eq_37 (t_status t)); [rewrite <- S; assumption | assumption].
+  - split; [|reflexivity]. apply set_status_same; [assumption|]. intros t Ft. rewrite F in Ft. inversion Ft; subst.
+    rewrite <- (norm_eq_37 (t_status t)); [rewrite <- S; assumption | assumption].
+Qed.
+
+Lemma ctasks_ids : forall c id ts isr, map t_id (ctasks c id ts isr) = map t_id ts.
+Proof.
+  intros c id ts isr. unfold ctasks, ts1_of. destruct (fnd ts id) as [t0|]; [|reflexivity].
+  destruct ((norm (t_status t0) =? 5) && isr); [reflexivity|].
+  set (ts1 := if norm (t_status t0) =? 5 then set_status id (if mem id (no_undo c) then 1 else 6) ts else ts).
+  assert (S1 : map t_id ts1 = map t_id ts) by (subst ts1; destruct (norm (t_status t0) =? 5); [apply set_status_shape | reflexivity]).
+  destruct isr; [assumption|]. destruct (ready (status_of ts1 id)); [assumption|].
+  destruct (fnd ts1 id); [|reflexivity]. destruct (must_wait ts1 t); [assumption|].
+  destruct (_ && _); [rewrite (proj1 (set_status_shape _ _ _)); assumption|].
+  destruct (_ || _); [rewrite (proj1 (set_status_shape _ _ _)); assumption|].
+  destruct (_ || _); [rewrite (proj1 (set_status_shape _ _ _)); assumption | assumption].
+Qed.
+
+Lemma ctasks_other : forall c id ts isr x, x <> id -> status_of (ctasks c id ts isr) x = status_of ts x.
+Proof.
+  intros c id ts isr x Hx. assert (Hb : (x =? id) = false) by (apply N.eqb_neq; assumption).
+  assert (S : forall v l, status_of (set_status id v l) x = status_of l x) by (intros; rewrite status_of_set, Hb; reflexivity).
+  unfold ctasks, ts1_of. destruct (fnd ts id) as [t0|]; [|reflexivity].
+  destruct ((norm (t_status t0) =? 5) && isr); [reflexivity|].
+  set (ts1 := if norm (t_status t0) =? 5 then set_status id (if mem id (no_undo c) then 1 else 6) ts else ts).
+  assert (S1 : status_of ts1 x = status_of ts x) by (subst ts1; destruct (norm (t_status t0) =? 5); [apply S | reflexivity]).
+  destruct isr; [assumption|]. destruct (ready (status_of ts1 id)); [assumption|].
+  destruct (fnd ts1 id); [|reflexivity]. destruct (must_wait ts1 t); [assumption|].
+  destruct (_ && _); [rewrite S; assumption|]. destruct (_ || _); [rewrite S; assumption|]. destruct (_ || _); [rewrite S; assumption | assumption].
+Qed.
+
+Lemma mem_in : forall x l, mem x l = true <-> In x l.
+Proof.
+  intros x l. unfold mem. rewrite existsb_exists. split.
+  - intros [y [Hy E]]. apply N.eqb_eq in E. subst; assumption.
+  - intros H. exists x. split; [assumption | apply N.eqb_refl].
+Qed.
+
+(* the invariant of the two Ensure passes run side by side: [a] continues the state with its running handlers R0, [a']
+   the restarted one; [pre] are the ids already considered *)
+Lemma ensure_after_restart : forall c R0 (l : list task) pre a a',
+  NoDup (pre ++ map t_id l) ->
+  tasks a = tasks a' -> map t_id (tasks a) = pre ++ map t_id l ->
+  (forall x, mem x (running a) = mem x (running a') || (mem x R0 && negb (mem x pre))) ->
+  (forall x, mem x (running a') = true -> mem x pre = true) ->
+  (forall x, mem x R0 = true -> mem x pre = false -> status_of (tasks a) x = 3 \/ status_of (tasks a) x = 7) ->
+  eqv (fold_left (fun acc t => consider c (t_id t) acc) l a) (fold_left (fun acc t => consider c (t_id t) acc) l a').
+Proof.
+  intros c R0 l. induction l as [|t l IH]; intros pre a a' Hn E1 Hids I2 I3 I5; simpl.
+  - split; [assumption|]. intros x. rewrite I2. simpl in Hn. rewrite app_nil_r in Hn.
+    destruct (mem x R0 && negb (mem x pre)) eqn:Z; [|rewrite orb_false_r; reflexivity].
+    (* an id of R0 that was never considered: not a task of the state at all; cannot happen once ids cover R0 *)
+    rewrite orb_true_r. apply andb_true_iff in Z. destruct Z as [Z1 Z2].
+    destruct (I5 x Z1) as [H|H]; [destruct (mem x pre); [discriminate | reflexivity]| |];
+      (unfold status_of in H; destruct (find (fun t0 => t_id t0 =? x) (tasks a)) as [t0|] eqn:F; [|discriminate];
+       apply find_some in F; destruct F as [Fin Fe]; apply N.eqb_eq in Fe;
+       assert (In x (map t_id (tasks a))) by (rewrite <- Fe; apply in_map; assumption);
+       rewrite Hids, app_nil_r in H0; apply mem_in in H0; rewrite H0 in Z2; discriminate).
+  - set (id := t_id t).
+    assert (Hnot : mem id pre = false).
+    { destruct (mem id pre) eqn:M; [|reflexivity]. exfalso. apply mem_in in M. simpl in Hn.
+      apply NoDup_remove_2 in Hn. apply Hn. apply in_or_app. left. assumption. }
+    destruct (consider_decomp c id a) as [A1 A2]. destruct (consider_decomp c id a') as [B1 B2].
+    assert (Hn' : NoDup (map t_id (tasks a))) by (rewrite Hids; assumption).
+    apply (IH (pre ++ [id])).
+    + rewrite <- app_assoc. simpl. assumption.
+    + (* tasks *)
+      rewrite A1, B1, <- E1. destruct (mem id R0) eqn:MR.
+      * assert (Ra : mem id (running a) = true) by (rewrite I2, MR, Hnot; simpl; apply orb_true_r).
+        assert (Ra' : mem id (running a') = false) by (destruct (mem id (running a')) eqn:M; [apply I3 in M; congruence | reflexivity]).
+        rewrite Ra, Ra'. destruct (ctasks_running_37 c id (tasks a) (I5 id MR Hnot)) as [X _].
+        destruct (ctasks_idle_37 c id (tasks a) Hn' (I5 id MR Hnot)) as [Y _]. congruence.
+      * assert (Eq : mem id (running a) = mem id (running a')) by (rewrite I2, MR; simpl; apply orb_false_r).
+        rewrite Eq. reflexivity.
+    + rewrite A1, ctasks_ids, Hids, <- app_assoc. reflexivity.
+    + (* running sets *)
+      intros x. rewrite A2, B2, <- E1, (mem_app1 x pre id). destruct (mem id R0) eqn:MR.
+      * assert (Ra : mem id (running a) = true) by (rewrite I2, MR, Hnot; simpl; apply orb_true_r).
+        assert (Ra' : mem id (running a') = false) by (destruct (mem id (running a')) eqn:M; [apply I3 in M; congruence | reflexivity]).
+        rewrite Ra, Ra'. destruct (ctasks_running_37 c id (tasks a) (I5 id MR Hnot)) as [_ X].
+        destruct (ctasks_idle_37 c id (tasks a) Hn' (I5 id MR Hnot)) as [_ Y]. rewrite X, Y, mem_app1, I2.
+        destruct (x =? id) eqn:Ex.
+        -- apply N.eqb_eq in Ex. subst x. rewrite Ra', MR, Hnot. reflexivity.
+        -- rewrite !orb_false_r. reflexivity.
+      * assert (Eq : mem id (running a) = mem id (running a')) by (rewrite I2, MR; simpl; apply orb_false_r).
+        rewrite Eq. destruct (cstart c id (tasks a) (mem id (running a'))).
+        -- rewrite !mem_app1, I2. destruct (x =? id) eqn:Ex; [|rewrite !orb_false_r; reflexivity].
+           apply N.eqb_eq in Ex. subst x. rewrite MR. simpl. rewrite !orb_true_r. reflexivity.
+        -- rewrite I2. destruct (x =? id) eqn:Ex; [|rewrite orb_false_r; reflexivity].
+           apply N.eqb_eq in Ex. subst x. rewrite MR. simpl. reflexivity.
+    + (* only considered ids are running in the restarted state *)
+      intros x. rewrite B2, (mem_app1 x pre id).
+      destruct (cstart c id (tasks a') (mem id (running a'))).
+      * rewrite mem_app1. intros H. apply orb_true_iff in H. destruct H as [H|H]; [rewrite (I3 x H); reflexivity | rewrite H; apply orb_true_r].
+      * intros H. rewrite (I3 x H). reflexivity.
+    + (* the tasks of R0 still to be considered keep their status *)
+      intros x Hx Hp. rewrite mem_app1 in Hp.
+      apply orb_false_iff in Hp. destruct Hp as [Hp1 Hp2]. rewrite A1, ctasks_other by (apply N.eqb_neq; assumption).
+      apply I5; assumption.
+Qed.
+
+(* C04_same_outcome: in a state whose running handlers all belong to tasks in Doing or Undoing (no running task is in Abort),
+   a restart followed by an Ensure pass and ANY continuation gives the same tasks, statuses and running handlers as the same
+   Ensure pass and continuation without the restart *)
+Theorem same_outcome : forall c s evs, NoDup (map t_id (tasks s)) ->
+  (forall id, mem id (running s) = true -> status_of (tasks s) id = 3 \/ status_of (tasks s) id = 7) ->
+  eqv (run_events c s (ERestart :: EEnsure :: evs)) (run_events c s (EEnsure :: evs)).
+Proof.
+  intros c s evs Hn Hr. simpl. apply run_eqv. unfold ensure. simpl.
+  assert (Q : eqv (fold_left (fun acc t => consider c (t_id t) acc) (tasks s) s)
+                  (fold_left (fun acc t => consider c (t_id t) acc) (tasks s) (restart s))).
+  { apply (ensure_after_restart c (running s) (tasks s) [] s (restart s)); simpl; try reflexivity; try assumption.
+    - intros x. rewrite andb_true_r. reflexivity.
+    - intros x H. discriminate.
+    - intros x Hx _. apply Hr. assumption. }
+  destruct Q as [Q1 Q2]. split; [symmetry; assumption | intros x; symmetry; apply Q2].
+Qed.
+
 (* ------------------------------------------------------------------ same outcome: complete finite domain *)
 (* the deterministic schedule in single steps: an Ensure pass when nothing runs, otherwise the first running handler returns *)
 Definition micro (c : cfg) (s : st) : st :=
